@@ -23,7 +23,7 @@ impl Prop for C12 {
         "exploration"
     }
     fn rule(&self) -> String {
-        "run kinds. lib: seeded valid writer history (any interleaving, all layer sets) written by the library, then linear_extract into a seeded subset of the names (empty, one, some, all, plus a name that is not in the archive), each chosen name with its own simulated sink under a seeded transfer schedule (1 byte, 1..n, Interrupted bursts): every chosen sink must hold exactly the model's bytes for that name (= what get_file returns, C01/C10), nothing else exists to receive data, the result is Ok. nomark / cutblock: the format model's foreign writer builds an archive (all layer sets) whose index is intact but whose block stream has no end-of-data marker, or is cut inside a content block: the archive opens, and linear_extract must return Err (the model first checks that the bytes following the blocks cannot be mistaken for a marker). sinkfail: the first chosen sink fails at its k-th write: the result must be Err. distinct_nontrivial = distinct (kind, variant, layers, subset class, interleaved, sink schedule kind, outcome) signatures.".into()
+        "run kinds. lib: seeded valid writer history (any interleaving, all layer sets; one run in twelve with 65..300 files of which 1-3 stay open across dozens of others; now and then 17..1000 recipients) written by the library, then linear_extract into a seeded subset of the names (empty, one, some, all, plus a name that is not in the archive), each chosen name with its own simulated sink under a seeded transfer schedule (1 byte, 1..n, Interrupted bursts): every chosen sink must hold exactly the model's bytes for that name (= what get_file returns, C01/C10), nothing else exists to receive data, the result is Ok. nomark / cutblock: the format model's foreign writer builds an archive (all layer sets) whose index is intact but whose block stream has no end-of-data marker, or is cut inside a content block: the archive opens, and linear_extract must return Err (the model first checks that the bytes following the blocks cannot be mistaken for a marker). sinkfail: the first chosen sink fails at its k-th write: the result must be Err. distinct_nontrivial = distinct (kind, variant, layers, subset class, interleaved, sink schedule kind, outcome) signatures.".into()
     }
     fn assumptions(&self) -> Vec<String> {
         vec!["archives with an early or duplicated marker, reused ids or other hostile shapes are C08 inputs, not C12 ones".into()]
@@ -47,7 +47,15 @@ impl Prop for C12 {
         let cfg = gen_cfg(&mut rng, variant, vc.hooks);
         let mode = *rng.pick(&[M_LIB, M_LIB, M_LIB, M_NOMARK, M_CUTBLOCK, M_SINKFAIL]);
         let o = GenOpts { max_files: 6, max_ops: if big { 10 } else { 30 }, max_piece: 2 * c.block, max_total: if big { c.block + c.chunk } else { 6 * c.block }, interleave: rng.chance(4, 5), flushes: false, special_names: mode == M_LIB, finalize: true, piece_scheds: false };
-        let ops = gen_ops(&mut rng, &c, &o);
+        let mut ops = gen_ops(&mut rng, &c, &o);
+        let mut cfg = cfg;
+        if !big && mode == M_LIB && rng.chance(1, 12) {
+            // many files, a few of them open across dozens of other files (ids beyond what small archives have)
+            let n = *rng.pick(&[65usize, 66, 70, 100, 129, 140, 200, 300]);
+            let ll = rng.range(1, 3) as usize;
+            ops = gen_many_files(&mut rng, n, ll, 40);
+        }
+        maybe_many_recipients(&mut rng, &mut cfg, 40);
         let mut case = Case::new("C12", cfg, ops);
         case.params.insert("mode".into(), mode);
         case.params.insert("subset".into(), match rng.below(5) {
@@ -116,7 +124,7 @@ impl Prop for C12 {
             let sink = SimSink::new(&Sched::Full);
             let w = s.write(&case.cfg, &case.ops, sink.clone());
             if w.panic.is_some() || w.from_config_err.is_some() || w.results.iter().any(Result::is_err) {
-                v.push(Violation::new("workload-write-failed", "write", format!("{:?} {:?}", w.panic, w.results.iter().find(|r| r.is_err()))));
+                v.push(Violation::new("workload-write-failed", "write", format!("writing the workload failed: panic {:?}, from_config {:?}, first failed call {:?}", w.panic, w.from_config_err, w.results.iter().find(|r| r.is_err()))));
                 return v;
             }
             sink.data()
